@@ -150,10 +150,11 @@ func dataAncestors(spec *gspec.GraphSpec, ref *gspec.RefResult) []string {
 func oneRun(ctx context.Context, rep *mon.Reporter, spec *gspec.GraphSpec, r interface{}, in gspec.V, ref *gspec.RefResult, faults map[string]gspec.Fault, para string, chunkSeed uint64, pipeCap int, sub string) bool {
 	ctl := gspec.NewCtl("r")
 	ctl.Faults = faults
+	ctl.EOFInChain = faults != nil && chunkSeed%3 == 0 // the injected error also wraps io.EOF: still a failure
 	out, wres, dump := callAny(gspec.WithCtl(ctx, ctl), r, para, in, chunkSeed, pipeCap)
 	rep.AddEvaluations(1)
 	rep.Count("runs_"+para, 1)
-	wit := map[string]any{"spec": spec, "input": in, "paradigm": para, "chunk_seed": chunkSeed, "pipe_cap": pipeCap, "faults": faults}
+	wit := map[string]any{"spec": spec, "input": in, "paradigm": para, "chunk_seed": chunkSeed, "pipe_cap": pipeCap, "faults": faults, "io_EOF_in_chain": ctl.EOFInChain}
 	if wres == mon.Stuck {
 		where, detail := gspec.StuckSignature(dump)
 		rep.Violation(ID+"/"+sub+"/hang/"+para+"/"+where, "paradigm "+para+" can never finish: every goroutine is parked\n"+detail, wit)
